@@ -331,8 +331,16 @@ def scenario(rng, pool, n, mode, target, fault):
             # S||X where S is the member's GENUINE signature over X||payload: a verifier that lets the length of the
             # signature field decide where the signed message starts (sig[:64], sig[64:]+payload) would accept it
             splice = sk.sign(x + payload).signature + x
-            s_ = rng.choice([s_[:63], s_ + b'\x00', b'', s_[:32], splice, splice, s_ + s_])
-            why += f'; signature {j} has length {len(s_)}' + (' (genuine signature over X||payload followed by X)' if s_ is splice else '')
+            # nacl's COMBINED form S(M')||M' in the signature field, M' = the identifier of ANOTHER block (an old genuine signature
+            # replayed) / arbitrary bytes / the right payload itself: a verifier that hands a long signature field to the
+            # combined-form check never looks at the block it is asked about
+            other = rng.choice([SIGN_MAGIC + rng.randbytes(32) + file, SIGN_MAGIC + root + rng.randbytes(32), rng.randbytes(rng.choice([1, 68, 100]))])
+            comb_other = sk.sign(other).signature + other
+            comb_same = s_ + payload
+            s_ = rng.choice([s_[:63], s_ + b'\x00', b'', s_[:32], splice, splice, s_ + s_, comb_other, comb_other, comb_same])
+            why += f'; signature {j} has length {len(s_)}' + (' (genuine signature over X||payload followed by X)' if s_ is splice else
+                                                              ' (combined form: genuine signature over another message followed by that message)' if s_ is comb_other else
+                                                              ' (combined form of the right message: the field must hold the 64-byte signature only)' if s_ is comb_same else '')
         else:
             fsk = pool.keys[-1 - rng.randrange(20)][0]
             s_ = fsk.sign(payload).signature
